@@ -9,10 +9,23 @@ package state
 
 // ASSUMED: the weighted median of a commit's timestamps is a function of the commit and validator set objects
 // (neither is mutated while a block is validated); its computation is under contract separately (WeightedMedian).
+// What goes into the median: one entry per commit signature that is not absent and whose address is in the validator set,
+// carrying that signature's timestamp and that validator's voting power; the total is the sum of exactly those powers.
+//@ spec func sigCounts(commit *types.Commit, vals *types.ValidatorSet, i int) bool = commit.Signatures[i].BlockIDFlag != 1 && idxOf(vals, commit.Signatures[i].ValidatorAddress) >= 0
+//@ spec func sigWeight(commit *types.Commit, vals *types.ValidatorSet, i int) int64 = ite(sigCounts(commit, vals, i), vals.Validators[idxOf(vals, commit.Signatures[i].ValidatorAddress)].VotingPower, 0)
+//@ spec func signedPower(commit *types.Commit, vals *types.ValidatorSet, n int) int64 = ite(n <= 0, 0, signedPower(commit, vals, n-1) + sigWeight(commit, vals, n-1))
 //@ func MedianTime
 //@   purefn
 //@   requires wf: len(validators.Validators) <= 2147483647
-//@   loop 1 invariant idx: 0 <= rangeindex + 1 && rangeindex + 1 <= len(commit.Signatures) && len(weightedTimes) == len(commit.Signatures)
+//@   atcall time.WeightedMedian inputs: arg1 == signedPower(commit, validators, len(commit.Signatures)) && len(arg0) == len(commit.Signatures) &&
+//@     | forall(i, 0, len(commit.Signatures), (arg0[i] != nil <==> sigCounts(commit, validators, i)) &&
+//@     |   (arg0[i] != nil ==> (arg0[i].Time == commit.Signatures[i].Timestamp && arg0[i].Weight == sigWeight(commit, validators, i))))
+//@   loop 1 invariant idx: 0 <= rangeindex + 1 && rangeindex + 1 <= len(commit.Signatures) && len(weightedTimes) == len(commit.Signatures) && fresh(weightedTimes)
+//@   loop 1 invariant sum: totalVotingPower == signedPower(commit, validators, rangeindex + 1)
+//@   loop 1 invariant done: forall(i, 0, rangeindex + 1, (weightedTimes[i] != nil <==> sigCounts(commit, validators, i)) &&
+//@     |   (weightedTimes[i] != nil ==> (weightedTimes[i].Time == commit.Signatures[i].Timestamp && weightedTimes[i].Weight == sigWeight(commit, validators, i))))
+//@   loop 1 invariant rest: forall(i, rangeindex + 1, len(commit.Signatures), weightedTimes[i] == nil)
+//@   loop 1 invariant live: forall(i, 0, rangeindex + 1, exists_now(weightedTimes[i]))
 
 // Validation is EXACT: a block is accepted exactly when every listed comparison with the node's own state holds.
 // lastBasicOK / lastCommitVerified witness the verdicts of Block.ValidateBasic and VerifyCommit on this very block and
